@@ -42,6 +42,8 @@ CHECKS = {
          'Every XREADGROUP/XACK/XCLAIM/XPENDING/XGROUP reply of the explored histories matches a model of group cursor + pending map; listed deviations are open findings.'),
  'C10': ('model_checking', 'fault enumeration of every n-th write of a save (hook) + BGSAVE parked at each per-key step by sync points while a client mutates the key, dump loaded by restart and validated by TLC against the per-key history the spec keeps during the save (BgTrack) + every prefix / byte corruptions of valid dumps loaded by the real loader in a child under RLIMIT_AS with a counting allocator',
          'For every enumerated failing write the previous dump is byte-identical and later saves work; for every forced schedule the loaded entry of every key (value and deadline together) is one the key held during the save and the file is loadable; for every enumerated truncated/corrupted file the loader ends with an error or a key-wise equal partial load within allocation and time bounds.'),
+ 'C06': ('exploration', 'enumerated boundary values in every numeric argument position of every command against keys of every type + all short byte strings over the protocol alphabet, absurd lengths, deep nesting, truncations on fresh connections; each followed by a probe (PING + sentinel dataset on a fresh connection) validated by the TLA+ trace spec, in which a crash has no action',
+         'No enumerated input made the server exit, hang or lose the sentinel data. Exploration level: the spec contributes the input space and the acceptance rule, nothing is decided outside the enumeration (a coverage-guided fuzzer would be the natural complement; it is outside this technique family).'),
 }
 NOT_YET = {}
 
